@@ -26,16 +26,27 @@ func run(c perco.GCase, r *pbt.Rec) error {
 	return perco.Execute(c.Case, r, 19)
 }
 
+func genPair(t *rapid.T) perco.PCase {
+	return perco.GeneratePair(t, perco.Profile{MaxSteps: 14, WRead: 1, WMaint: 2, WDup: 1, WCheck: 3, WPartial: 1, Excl: perco.OpenExclusions()})
+}
+
+func runPair(c perco.PCase, r *pbt.Rec) error {
+	r.Excluded(c.Excl)
+	return perco.ExecutePair(c, r, 19)
+}
+
 func TestCheck(t *testing.T) {
 	s := &pbt.Suite{ID: "C19", Level: "exploration",
-		Rule: "Histories over 1-2 hot keys: locks are set (prewrite) and removed (commit, rollback, resolve, TTL expiry) repeatedly by up to 5 transactions, with flush / L0->ingest move / ingest merge / ingest drain / picker steps anywhere (about one step in four), CheckTxnStatus with CurrentTs in {ts+ttl-1, ts+ttl, ts+ttl+1, now, 0}, ttl in {0,1,2,3,4,6,40}, CallerStartTs around the pending commit version, MinCommitTs from the prewrite in {0,start+1,start+2,start+3,start+4}. Oracles after every step (including maintenance): Reader.GetLock(k) (owner, primary, ttl, kind, min commit ts) equals the model lock for every key and the lock CF seen through the internal iterator agrees; CheckTxnStatus answers TTLExpireRollback iff the primary lock belongs to the transaction, ttl!=0 and current>=ts+ttl; Commit/ResolveLock-commit below the lock's min commit ts is refused with CommitTsExpired, at/above it succeeds; prewrite on a key locked by another transaction is refused. Partial requests: a hotlimit step sets Options.WriteHotKeyLimit so that a Commit is refused between its two engine writes (commit record written, lock removal refused with ErrHotKeyWriteThrottle, response Retryable) and lifts it again; after a Retryable response the model re-reads lock and write records of the touched keys from the store and every later request (rollback / resolve / check-txn-status / re-applied commit on the leftover lock) is judged against that state. Non-trivial = a lock was set and flushed, removed later and the removal flushed into a different SST than the lock; distinct by case content.",
+		Rule: "Histories over 1-2 hot keys: locks are set (prewrite) and removed (commit, rollback, resolve, TTL expiry) repeatedly by up to 5 transactions, with flush / L0->ingest move / ingest merge / ingest drain / picker steps anywhere (about one step in four), CheckTxnStatus with CurrentTs in {ts+ttl-1, ts+ttl, ts+ttl+1, now, 0}, ttl in {0,1,2,3,4,6,40}, CallerStartTs around the pending commit version, MinCommitTs from the prewrite in {0,start+1,start+2,start+3,start+4}. Oracles after every step (including maintenance): Reader.GetLock(k) (owner, primary, ttl, kind, min commit ts) equals the model lock for every key and the lock CF seen through the internal iterator agrees; CheckTxnStatus answers TTLExpireRollback iff the primary lock belongs to the transaction, ttl!=0 and current>=ts+ttl; Commit/ResolveLock-commit below the lock's min commit ts is refused with CommitTsExpired, at/above it succeeds; prewrite on a key locked by another transaction is refused. Partial requests: a hotlimit step sets Options.WriteHotKeyLimit so that a Commit is refused between its two engine writes (commit record written, lock removal refused with ErrHotKeyWriteThrottle, response Retryable) and lifts it again; after a Retryable response the model re-reads lock and write records of the touched keys from the store and every later request (rollback / resolve / check-txn-status / re-applied commit on the leftover lock) is judged against that state. Non-trivial = a lock was set and flushed, removed later and the removal flushed into a different SST than the lock; Spec parked (concurrent pair): after a sequential prefix two requests A,B (CheckTxnStatus with a min-commit-ts push, Prewrite, Commit, ResolveLock, BatchRollback; usually on a currently locked common key, 10% on disjoint keys) are run through the percolator package functions: the harness holds the latches of the keys of A on the shared latch.Manager, starts A (a correct A parks in Acquire before reading anything; observed through its goroutine stack), runs B to completion on a separate manager, releases, joins A. Oracle: responses of A and B and the final lock (owner, min commit ts) and committed write records must be explained by the reference model for order A;B or for order B;A. Non-trivial for this spec = A was observed parked and B changed the lock record of a key of A. distinct by case content.",
 		Assumptions: []string{
+			"parked spec: a request blocked in latch.Manager.Acquire has not read anything yet iff the implementation takes its latches before reading; the harness never judges by wall clock — if A neither parks nor returns within 3 s the pair is skipped (label pair:inconclusive-not-parked)",
 			"a request answered with a Retryable key error took effect as a prefix of its engine writes; its response and partial effect are not judged (the model resynchronises from the store), all later requests are",
 			"requests are applied one at a time (sequential raft apply)",
 			"the min-commit-ts push of CheckTxnStatus (caller_start_ts+1) is part of the lock state the property speaks about ('the lock's minimum commit timestamp')",
 			"rotation is always followed by waiting for the flush, so a step's effect does not depend on flush timing",
 		},
 	}
-	pbt.Add(s, &pbt.Spec[perco.GCase]{Name: "locks", Gen: gen, Run: run, Quick: 1200, Thorough: 36000, Shards: 16})
+	pbt.Add(s, &pbt.Spec[perco.GCase]{Name: "locks", Gen: gen, Run: run, Quick: 900, Thorough: 36000, Shards: 16})
+	pbt.Add(s, &pbt.Spec[perco.PCase]{Name: "parked", Gen: genPair, Run: runPair, Quick: 600, Thorough: 12000, Shards: 16})
 	s.Main(t)
 }
